@@ -22,6 +22,8 @@ plan of HTTP outcomes and every behaviour of the decompression library (`World`)
   count check is kept sound by every *completed* run (returned or raised), so a failed verification is not forgotten by
   a retry; `line_count_memo_broken_in_crash_window`: it is not sound between `os.replace` and the comparison (open).
 * `decompress_ok_means_tool_or_library_succeeded`: a failed external tool never counts as a successful decompression.
+* `prepare_docs_ok_means_resolved_file_verified`: the caller with one or two data directories and the path resolution
+  afterwards: the file the challenge reads is the verified one.
 * `crash_states_keep_offset_table_sound`: the offset-table assumption is *preserved* by the code: no state the
   preparation passes through — hence no crash — leaves a table that is valid by mtime but not the document's complete
   table (the table is built under `.offset.tmp` and published atomically).
@@ -254,6 +256,36 @@ theorem decompress_ok_means_tool_or_library_succeeded (o : DcOutcome) (fs : FS) 
       by_cases hf : o.fails
       · simp [hf] at h
       · simpa using hf
+
+/-! ## 6. the caller: prepare_docs with one or two data directories, and the file the challenge reads -/
+
+/-- **prepare_docs_ok_means_resolved_file_verified**: `DefaultTrackPreparator.prepare_docs` with one data directory
+    (track repository) or two (`--track-path`: bundled attempt in the track directory, fall-back to the corpus
+    directory only when the bundled attempt returns `False`), followed by `set_absolute_data_path` (first directory in
+    which the document file exists).  For every state of both directories, specification and outcome plan (same
+    hypotheses as `prepare_ok_means_verified`, for each directory): if `prepare_docs` returns normally, the directory
+    the document file is *resolved* to holds the verified file with its complete table.  (A `DataError` of the bundled
+    attempt is not swallowed, and `False` is only returned when the track directory has no document file, so a bad
+    bundled file can never shadow the verified copy in the corpus directory.) -/
+theorem prepare_docs_ok_means_resolved_file_verified (w : World) (spec : Spec) (two : Bool) (fsT fsC : FS) (plan : List Attempt)
+    (hyp : Hyp w spec plan) (hT : Inv w fsT) (hC : Inv w fsC)
+    (hok : (prepareDocs w spec two fsT fsC plan).res = .done ()) :
+    ∃ fs, resolveDoc two (prepareDocs w spec two fsT fsC plan).track (prepareDocs w spec two fsT fsC plan).corpus = some fs ∧
+      Verified w fs :=
+  prepareDocs_verified w spec two fsT fsC plan hyp hT hC hok
+
+/-- `prepare_bundled_document_set` returns `False` only if that directory has no document file -/
+theorem bundled_false_means_no_document_file (w : World) (spec : Spec) (fs : FS)
+    (h : (prepareBundled w spec fs).res = .done false) : (prepareBundled w spec fs).fs.doc = none :=
+  bundled_false_no_doc w spec BFUEL fs h
+
+/-- non-vacuity: a wrong-sized bundled document file with a complete archive in the corpus directory is an explicit
+    error (not a silent fall-back); without the bundled file the corpus directory is prepared and resolved -/
+example : (prepareDocs w0 specDeclared true ⟨some ⟨61, .pub, 1⟩, none, none, none, none, 2⟩
+    ⟨none, some ⟨40, .pub, 1⟩, none, none, none, 2⟩ []).res = .raised .bundledDocWrongSize := by decide
+example : (prepareDocs w0 specDeclared true emptyFS ⟨none, some ⟨40, .pub, 1⟩, none, none, none, 2⟩ []).res = .done () ∧
+    (resolveDoc true (prepareDocs w0 specDeclared true emptyFS ⟨none, some ⟨40, .pub, 1⟩, none, none, none, 2⟩ []).track
+      (prepareDocs w0 specDeclared true emptyFS ⟨none, some ⟨40, .pub, 1⟩, none, none, none, 2⟩ []).corpus).isSome = true := by decide
 
 /-- the zero-lines quirk is gone: an empty document where 10 lines are expected is an explicit error, and neither the
     table nor its temporary file stays behind -/
